@@ -161,7 +161,7 @@ def judge(ctx, c07, tab, case, status, obj, ptrs):
 def run(ctx, tab, cases, objdir, c07):
     gcc_reference(ctx, c07, tab, cases)
     # cases on which the model predicts trouble inside the compiler run alone; the rest in batches
-    risky = [i for i, c in enumerate(cases) if c["mst"] != "ok" or c["afired"]]
+    risky = [i for i, c in enumerate(cases) if c["mst"] in ("undef", "err")]
     safe = [i for i in range(len(cases)) if i not in set(risky)]
     B = 250
     batches = [safe[k:k + B] for k in range(0, len(safe), B)]
